@@ -98,7 +98,7 @@ def gen_ops(quick, seed):
                 out.append(ps(pid + ":" + s, "\n".join(pre + ["probe(%s %s %s)" % (A, op, B)]), pt=pt,
                               tag="operator table, operands from variables / point keys"))
         for op in ASSIGNOPS:
-            if not quick or rng.random() < 0.3:
+            if True:
                 out.append(ps("op:%s%s%s" % (an, op, bn), "x = %s\ny = %s\nx %s y\nprobe(x)" % (al, bl, op),
                               tag="compound assignment"))
     for (an, al, av) in ops:
@@ -825,3 +825,39 @@ def gen_extract(quick, seed):
         add("q = %s\nsql_cover(q)\nprobe(q, get_key(q))" % _q(q["q"]), {"meas": "m", "tags": {}, "fields": {"fi": 7}}, "sql_cover on a variable")
     add("sql_cover(nosuch)\nprobe(1)", {"meas": "m", "tags": {}, "fields": {}}, "sql_cover: absent subject")
     return out
+
+
+
+# ------------------------------------------------------------------------------------------------
+# C18: the shared language on the v2 interpreter
+
+V2_CALLS = {"probe", "one", "two", "void"}
+_CALL_RE = __import__("re").compile(r"([A-Za-z_][A-Za-z0-9_]*)\s*\(")
+_KW = {"if", "elif", "for", "in"}
+
+
+def v2ify(progsets, keep=1.0, seed=1):
+    """The same program texts on the v2 interpreter (programs calling v1-only builtins are left out; names that v1
+    would read from the point are undefined names - errors - on v2, which the specification knows)."""
+    rng = random.Random(seed)
+    out = []
+    for p in progsets:
+        text = p["scripts"]["main.p"]
+        calls = {c for c in _CALL_RE.findall(text) if c not in _KW}
+        if len(p["scripts"]) != 1 or not calls <= V2_CALLS:
+            continue
+        if rng.random() > keep:
+            continue
+        q = dict(p)
+        q["id"] = "v2:" + p["id"]
+        q["v2"] = True
+        q["pt"] = EMPTY_PT
+        q["tag"] = "v2: " + p.get("tag", "")
+        out.append(q)
+    return out
+
+
+def gen_v2shared(quick, seed):
+    src = ([p for p in gen_ops(quick, seed) if p["id"].endswith((":ll", ":vv")) or p["id"].startswith(("un:", "tree:"))]
+           + gen_slices(quick, seed) + gen_index(quick, seed) + gen_control(quick, seed) + gen_alias(quick, seed))
+    return v2ify(src, keep=0.35 if quick else 1.0, seed=seed)
